@@ -30,6 +30,7 @@ Apply(e) ==
       [] e.ev = "enter"    -> ps' = Enter(ps, e.inst, e.k, e.tok, e.dead)
       [] e.ev = "leave"    -> ps' = Leave(ps, e.inst, e.out, e.dead)
       [] e.ev = "tick"     -> ps' = Tick(ps, e.d)
+      [] e.ev = "ctxcancel" -> ps' = CtxCancel(ps, e.c)
       [] e.ev = "quiet"    -> ps' = Quiet(ps)
       [] e.ev = "teardown" -> ps' = Teardown(ps)
       [] e.ev = "rcburst"  -> ps' = Teardown(ps)     \* free-running burst: only the final observation is judged
